@@ -784,15 +784,32 @@ def file_lines(hdr, insts, working=False, states=None):
     return lines
 
 
-def render(lines, seps=None, eol="\n"):
+_ID_TOKEN = re.compile(r"^#([0-9]+)$")
+_UINT_TOKEN = re.compile(r"^[0-9]+$")
+
+
+def respell(text, kind, spell):
+    """alternative conforming spellings of a token: instance names with leading zeros (#007), unsigned integers with a plus sign"""
+    if not spell:
+        return text
+    if kind in ("#id", "val"):
+        m = _ID_TOKEN.match(text)
+        if m and spell.get("id_pad"):
+            return "#" + m.group(1).rjust(spell["id_pad"], "0")
+        if kind == "val" and spell.get("plus_int") and _UINT_TOKEN.match(text):
+            return "+" + text
+    return text
+
+
+def render(lines, seps=None, eol="\n", spell=None):
     """seps: {"<line key>:<k>": text} placed after the k-th token of that line (k = -1: before the first token);
     eol: what stands between two records (Part 21 does not ask for a line break: "" and " " are as conforming as "\n")"""
     seps = seps or {}
     out = []
     for key, toks in lines:
         s = seps.get("%s:-1" % key, "")
-        for k, (text, _) in enumerate(toks):
-            s += text + seps.get("%s:%d" % (key, k), "")
+        for k, (text, kind) in enumerate(toks):
+            s += respell(text, kind, spell) + seps.get("%s:%d" % (key, k), "")
         out.append(s)
     return eol.join(out) + eol
 
